@@ -87,17 +87,24 @@ func verifK24GenInv(name string, L int) verifK24Inv {
 	oneField := func(p string) *structpb.Struct {
 		return &structpb.Struct{Fields: map[string]*structpb.Value{str(p + "k"): structpb.NewStringValue(str(p + "v"))}}
 	}
-	switch vt.Choose(name+"ctx", 3) {
+	// a job may pin a structural choice (`pin.<name>` = value): splits the shape space over jobs
+	choose := func(nm string, k int) int {
+		if p := vt.ParamInt("pin."+nm, -1); p >= 0 && p < k {
+			return p
+		}
+		return vt.Choose(nm, k)
+	}
+	switch choose(name+"ctx", 3) {
 	case 1:
 		in.ctx = &structpb.Struct{}
 	case 2:
 		in.ctx = oneField(name + "ctx")
 	}
-	n := vt.Choose(name+"n", vt.ParamInt("tuples", 1)+1)
+	n := choose(name+"n", vt.ParamInt("tuples", 1)+1)
 	for i := 0; i < n; i++ {
 		p := name + "t" + string(rune('0'+i))
 		t := keys.VerifK24Tuple{Obj: str(p + "o"), Rel: str(p + "r"), User: str(p + "u")}
-		switch vt.Choose(p+"shape", 3) {
+		switch choose(p+"shape", 3) {
 		case 1:
 			t.HasCond, t.Cond = true, str(p+"c")
 		case 2:
@@ -105,7 +112,12 @@ func verifK24GenInv(name string, L int) verifK24Inv {
 		}
 		in.tuples = append(in.tuples, t)
 	}
-	// request validation rejects two contextual tuples with the same object, relation and user
+	// dups=1: the same contextual tuple may be listed more than once (no validation rejects that); the two inputs
+	// are then compared as multisets (see verifK24SameTupleSet), at most two tuples per side
+	if vt.ParamInt("dups", 0) == 1 {
+		return in
+	}
+	// default: no two contextual tuples with the same object, relation and user
 	for i := range in.tuples {
 		for j := 0; j < i; j++ {
 			a, b := in.tuples[i], in.tuples[j]
@@ -140,6 +152,19 @@ func verifK24SameTupleSet(a, b []keys.VerifK24Tuple) bool {
 			all = false
 		}
 	}
+	// ... and the other way round: with repeated tuples (dups=1, <= 2 tuples per side) equal length plus mutual
+	// containment is multiset equality
+	for _, y := range b {
+		found := false
+		for _, x := range a {
+			if keys.VerifK24SameTuple(x, y) {
+				found = true
+			}
+		}
+		if !found {
+			all = false
+		}
+	}
 	return all
 }
 
@@ -154,7 +179,9 @@ func VerifK24bInvariantInjective() {
 	if pa.same(pb) {
 		vt.Assert(same, "two semantically different invariant inputs (store, model, context, contextual tuples) have the same pre-digest bytes")
 	}
-	if same {
+	if same && vt.ParamInt("dups", 0) == 0 {
+		// (with repeated tuples only soundness is claimed: two copies of one (object, relation, user) that differ in
+		// their condition context keep their request order, so a permuted request gets another key - a cache miss)
 		vt.Assert(pa.same(pb), "two semantically equal invariant inputs have different pre-digest bytes")
 	}
 }
